@@ -48,7 +48,7 @@ def facts(case):
     """(L1, L2, in_scope, some-pair-meets) of a case; one-entry memo (oracle, nontrivial and features are called in a row)"""
     if _MEMO[0] is not case:
         L1, L2 = full(case, 1), full(case, 2)
-        ok = good(L1) and good(L2) and aligned(L1)
+        ok = good(L1) and good(L2)
         _MEMO[0], _MEMO[1] = case, (L1, L2, ok, ok and any(meets(e, f) for e in L1 for f in L2))
     return _MEMO[1]
 
@@ -108,12 +108,15 @@ class C15(Prop):
     MODULE = "AwProofs.Props.C15"
     THEOREMS = [
         "AwProofs.C15.list1_intact",
-        "AwProofs.C15.list2_pieces",
         "AwProofs.C15.list2_pieces_within",
         "AwProofs.C15.list2_zero_length",
-        "AwProofs.C15.out_nonoverlap",
-        "AwProofs.C15.cover_union",
         "AwProofs.C15.terminates",
+        "AwProofs.C15.list2_pieces_partial",
+        "AwProofs.C15.out_nonoverlap_partial",
+        "AwProofs.C15.cover_union_partial",
+        "AwProofs.C15.list2_pieces_refuted",
+        "AwProofs.C15.out_nonoverlap_refuted",
+        "AwProofs.C15.cover_union_refuted",
     ]
     TRUSTED = [
         "the origin of a returned event is read off its data label by the oracle (every generated event has a unique label); "
@@ -122,16 +125,19 @@ class C15(Prop):
         "before/after); the model is a pure function",
     ]
     LEVEL_TEXT = (
-        "Machine-checked Lean 4 theorems (list1_intact, list2_pieces, list2_pieces_within, list2_zero_length, "
-        "out_nonoverlap, cover_union for all sorted internally non-overlapping lists with durations >= 0 whose list-one "
-        "durations are whole milliseconds; terminates for all integer inputs) over a branch-for-branch model of the "
-        "union_no_overlap loop, _split_event and the millisecond floor of Event.timestamp; the model is compared "
-        "with the real function on every pair of small-scope lists and on random long lists on every run, and the property "
-        "is also evaluated directly on the real outputs"
+        "Machine-checked Lean 4 theorems over a branch-for-branch model of the union_no_overlap loop, _split_event and the "
+        "millisecond floor of Event.timestamp: list1_intact, list2_pieces_within, list2_zero_length (all sorted internally "
+        "non-overlapping lists with durations >= 0) and terminates (all integer inputs) in full; list2_pieces_partial, "
+        "out_nonoverlap_partial, cover_union_partial under the extra hypothesis that the list-one durations are whole "
+        "milliseconds, with the full statements refuted on the model (list2_pieces_refuted, out_nonoverlap_refuted, "
+        "cover_union_refuted: open finding submillisecond-list-one). The model is compared with the real function on every "
+        "pair of small-scope lists and on random long lists on every run, and the property is evaluated directly on the "
+        "real outputs, sub-millisecond inputs included"
     )
     LEVEL_NOTE = (
         "trusts: Lean kernel + 3 standard axioms; model-code tie is differential (exhaustive small scope + random); "
-        "coverage is half-open [ts, ts+dur); zero-length events treated separately"
+        "coverage is half-open [ts, ts+dur); zero-length events treated separately; three of the seven statements are "
+        "_partial (whole-ms list-one durations), the gap is the open finding submillisecond-list-one"
     )
     TECHNIQUE = "Lean 4 proof over executable model + differential correspondence check + direct oracle"
     RULE = (
@@ -140,16 +146,17 @@ class C15(Prop):
         "(thorough), zero-length events and touching events included; seeded random lists of up to 14 events drawn from a "
         "shared pool of millisecond instants (so edges coincide often), mixed UTC offsets and ids; one event spanning many; "
         "chains of 50-300 events with dense edges; "
-        "microsecond durations on millisecond instants (list one on whole ms: full property; otherwise correspondence only); "
+        "microsecond durations on millisecond instants (judged like every other case; failures with a sub-millisecond "
+        "list-one duration fall under the open finding submillisecond-list-one); "
         "arbitrary integer lists (unsorted, negative durations) for correspondence and termination only; "
         "non-trivial = some event of list one meets some event of list two"
     )
     ASSUMPTIONS = [
         "precondition of the property: in each list every event has duration >= 0 and ends at or before the start of the "
         "next one (so a zero-length event may sit on an edge of a neighbour but not strictly inside it)",
-        "guard: the durations of the list-one events are whole milliseconds (their instants always are: Event floors "
-        "timestamps to the ms). The cut points are the edges of list-one events, and a cut at a finer instant cannot be "
-        "stored in an Event; such inputs are run for correspondence and termination, their result is not judged",
+        "list2_pieces, out_nonoverlap and cover_union are proved only for list-one durations that are whole milliseconds "
+        "(suffix _partial); for other inputs the real code fails them (the cut tail is floored to the ms by "
+        "Event.timestamp's setter), recorded as the open finding submillisecond-list-one",
     ]
 
     # ---- generation -------------------------------------------------------------------------
@@ -194,7 +201,8 @@ class C15(Prop):
         # microsecond durations on millisecond instants (u = 1 ms, du = 1 us)
         ms = lambda l1, l2: n.append(("named", {"u": 1000, "du": 1, "l1": l1, "l2": l2}))
         ms([[0, 2_000_000]], [[1000, 1_500_500], [2501, 499]])  # list one on whole ms: exact pieces
-        ms([[0, 12_345_678]], [[5000, 20_000_000]])  # list-one end between two ms: the tail is floored (not judged)
+        ms([[0, 1500]], [[1, 1000]])  # witness of the open finding submillisecond-list-one (AwProofs.C15.*_refuted)
+        ms([[0, 12_345_678]], [[5000, 20_000_000]])  # list-one end between two ms: the tail is floored (open finding)
         ms([[0, 3]], [[0, 14], [1, 3_330_015]])  # ... must still end after a few iterations
         return n
 
@@ -251,7 +259,7 @@ class C15(Prop):
         for _ in range(ctx.pick(1500, 60000)):
             # microsecond durations on millisecond instants: the tail of a cut event is floored to the ms by
             # Event.timestamp's setter. With list one on whole ms the property is still exact (only list-one
-            # edges are cut points); otherwise correspondence and the unconditional parts only
+            # edges are cut points); otherwise it can fail (open finding submillisecond-list-one)
             sub1 = rng.random() < 0.5
 
             def mk(sub):
@@ -375,6 +383,13 @@ class C15(Prop):
             return f"covered time {cout} is not the union of the inputs {cin}"
         return None
 
+    def scope(self, case, out):
+        """known finding `submillisecond-list-one`: some list-one instant or duration is not a whole number of
+        milliseconds (the negation of TsMs / WholeMsDurations l1 in AwProofs.C15.*_partial)"""
+        if any(e[1] % 1000 != 0 or e[2] % 1000 != 0 for e in full(case, 1)):
+            return "submillisecond-list-one"
+        return None
+
     def nontrivial(self, case, out):
         return facts(case)[3]
 
@@ -382,7 +397,7 @@ class C15(Prop):
         L1, L2, in_scope, any_meets = facts(case)
         if not in_scope:
             return ["outside-precondition"]
-        ft = []
+        ft = ["list-one:" + ("whole-ms" if aligned(L1) else "sub-ms")]
         if any(sum(1 for f in L2 if meets(e, f)) >= 2 for e in L1):
             ft.append("l1-event-meets-several-l2")
         if any(sum(1 for e in L1 if meets(e, f)) >= 2 for f in L2):
